@@ -27,6 +27,8 @@ std::vector<Op> gen_script(const std::string& prop, const WorldSpec& w, uint64_t
 Plan gen_hist_plan(const std::string& prop, uint64_t run_seed, const GenOpts& o);
 
 Plan gen_fault_plan(uint64_t run_seed, const GenOpts& o);
+Plan gen_sched_plan(uint64_t run_seed, const GenOpts& o);
+Plan gen_krylov_plan(uint64_t run_seed, const GenOpts& o);
 Plan gen_plan_for(const std::string& prop, uint64_t run_seed, const GenOpts& o);
 Op gen_compute(Rng& r, const WorldSpec& w, const std::string& prop, bool allow_bad);
 Op gen_init(Rng& r, const WorldSpec& w, bool allow_zero);
